@@ -184,6 +184,23 @@ def rule_N2(ctx):
                             if isinstance(a, ast.Assign) and any(isinstance(t, ast.Name) and t.id == val for t in a.targets):
                                 src = norm(a.value)
                     ok = src in ("child_info.routines", "self._routines")
+                    if not ok:
+                        # however the arguments are put together (keyword table, **mapping): what the constructor's `routines`
+                        # parameter is bound to on every path that makes the call
+                        from ..core.terms import SIGS as _sigs
+                        from .util import call_parts as _cp2, evaluator as _ev2n
+                        got_ = set()
+                        for p_ in run_paths(ctx, fn, rule="N2", limit=4000):
+                            for c_, e_, st_ in calls_on(p_):
+                                if c_ is c:
+                                    nm_, pos_, kw_ = _cp2(_ev2n(ctx, fn, e_).ev(c_).key())
+                                    params_ = _sigs.get(name) or []
+                                    bound_ = dict(zip(params_, pos_))
+                                    bound_.update(kw_)
+                                    got_.add(bound_.get("routines", bound_.get("_routines")))
+                        ok = bool(got_) and got_ <= {"child_info.routines", "self._routines"}
+                        if not ok and got_:
+                            val = sorted(str(x) for x in got_)[0]
                     det = "" if ok else f"routines argument is `{val}`: children of this directory never receive safe/export names"
                 ctx.ob("N2", c, f"{name}(...) receives the routines of its parent context", ok, det, inst=f"{name}@{q}")
     if n < 5:
@@ -1623,6 +1640,20 @@ def rule_N8(ctx):
     ctx.ob("N8", tk, "the path tokeniser splits on '/' and '\\' (one capturing group, so split() alternates token / separator)", ok, f"{pat}", inst="tokeniser", file=ST, qualname="Traversable")
     sp = [a for a in own_nodes(pp) if isinstance(a, ast.Assign) and norm(a.targets[0]) == "tokens_raw"]
     ok = len(sp) == 1 and norm(sp[0].value) == "self._TOKENIZE_PATH_REGEX.split(path.strip())"
+    if not ok:
+        # wherever the result is kept: the one split the lookup performs is a split of the stripped path
+        from .util import call_parts as _cp8
+        pth = pp.args.args[1].arg
+        splits = [c for c in own_nodes(pp) if isinstance(c, ast.Call) and isinstance(c.func, ast.Attribute) and c.func.attr == "split"]
+        seen_keys = set()
+        for p_ in run_paths(ctx, pp, rule="N8", limit=4000, include_exc=True):
+            for c_, e_, st_ in calls_on(p_):
+                if c_ in splits:
+                    from .util import evaluator as _ev8
+                    seen_keys.add(_ev8(ctx, pp, e_).ev(c_).key())
+        ok = len(splits) == 1 and seen_keys == {f"self._TOKENIZE_PATH_REGEX.split({pth}.strip())"}
+        if not ok and sp == []:
+            sp = [ast.Assign(targets=[ast.Name(id="tokens_raw", ctx=ast.Store())], value=splits[0])] if len(splits) == 1 else []
     ctx.ob("N8", pp, "the whole path is stripped of surrounding blanks before it is split", ok,
            "" if ok else f"tokens come from `{norm(sp[0].value) if sp else '?'}`: blanks after a trailing separator become a token that is looked up", inst="strip-path")
     from .sem import emptiness_by as _eb8
